@@ -1,6 +1,6 @@
 """C17 — FMM-mode operators equal dense-mode ones given an exact far-field evaluator."""
 
-from .. import fmm, fmmmode, fx, rules
+from .. import fmm, fmmmode, fx, geom, rules
 from . import c11
 
 LEVEL = "other"
@@ -24,6 +24,7 @@ ASSUMPTIONS = ["fmm_interface.evaluate returns [potential, gradient in the targe
 
 def run(ctx):
     fmm.near_field_kernels(ctx)
+    geom.point_cloud(ctx)
     fmm.evaluator_terms(ctx)
     fmm.point_map_bounds(ctx)
     fmm.transform_rows(ctx)
